@@ -48,9 +48,13 @@ func hexOf(r *Rand, n int, style int) string {
 var wallets = []string{"Wallet 1", "Wallet 2", "W"}
 var accounts = []string{"Account 1", "Account 12", "Account 2", "Validator 1", "1"}
 
-// account patterns: none has a top-level alternation or an escaped trailing dollar (outside the
-// generated domain, see props/C10.json)
+// account patterns; none has an escaped trailing dollar (outside the generated domain, see props/C10.json)
 var patterns = []string{
+	"Wallet 1/Account 1|Wallet 2/Account 2", // top-level alternation: must stay inside the implicit anchors
+	"Account 1|Wallet 2/.*",
+	"Wallet 2/Account 1|1",
+	"^Wallet 1/Account 1|W/1",       // half anchored
+	"^Wallet 1/Account 2$|^W/1$",    // fully anchored by the author: used as written
 	"Wallet 1/Account 1",     // exact name; a prefix of "Wallet 1/Account 12"
 	"Wallet 1/.*",            // whole wallet
 	"Wallet 2/Account [12]",  // class
@@ -182,7 +186,11 @@ func (g *gctx) genV2() map[string]any {
 		case k < 9:
 			p["proposer"] = g.key()
 		case k < 19:
-			p["proposer"] = patterns[r.Intn(len(patterns))]
+			pat := patterns[r.Intn(len(patterns))]
+			p["proposer"] = pat
+			if strings.Contains(pat, "|") && !strings.Contains(pat, "(") {
+				g.tags["alternation"] = true
+			}
 		default:
 			p["proposer"] = "0x" + strings.Repeat("00", 48)
 			g.tags["zero-key-proposer"] = true
